@@ -1,9 +1,11 @@
 package sym
 
 import (
+	"encoding/json"
 	"fmt"
 	"go/types"
 	"reflect"
+	"regexp"
 	"strings"
 
 	"golang.org/x/tools/go/ssa"
@@ -32,9 +34,62 @@ func registerRegexpModels(e *Engine) {
 		s, _ := in.side[fmt.Sprintf("re%p", p)].(string)
 		return s
 	}
+	// concrete subjects are handed to Go's own regexp engine
+	conc := func(in *Interp, v Val) (*regexp.Regexp, bool) {
+		re, err := regexp.Compile(patOf(in, v))
+		return re, err == nil
+	}
+	e.reg("(*regexp.Regexp).ReplaceAllStringFunc", func(in *Interp, fr *frame, fn *ssa.Function, a []Val) Val {
+		src := a[1].(Str)
+		re, ok := conc(in, a[0])
+		if !ok || src.B != nil {
+			panic(unsupported("regexp ReplaceAllStringFunc on a symbolic string"))
+		}
+		var out strings.Builder
+		last := 0
+		for _, m := range re.FindAllStringIndex(src.S, -1) {
+			out.WriteString(src.S[last:m[0]])
+			r := in.call(fr, a[2], []Val{Str{S: src.S[m[0]:m[1]]}})
+			rs, _ := r.(Str)
+			if rs.B != nil {
+				panic(unsupported("regexp replacement callback returned a symbolic string"))
+			}
+			out.WriteString(rs.S)
+			last = m[1]
+		}
+		out.WriteString(src.S[last:])
+		return Str{S: out.String()}
+	})
+	e.reg("(*regexp.Regexp).FindStringSubmatch", func(in *Interp, fr *frame, fn *ssa.Function, a []Val) Val {
+		src := a[1].(Str)
+		re, ok := conc(in, a[0])
+		if !ok || src.B != nil {
+			panic(unsupported("regexp FindStringSubmatch on a symbolic string"))
+		}
+		m := re.FindStringSubmatch(src.S)
+		if m == nil {
+			return Slice(nil)
+		}
+		out := make(Slice, len(m))
+		for i, x := range m {
+			out[i] = Str{S: x}
+		}
+		return out
+	})
+	for _, name := range []string{"FindString", "FindStringIndex", "FindAllString", "FindAllStringSubmatch", "Match", "ReplaceAll", "ReplaceAllLiteralString", "Split", "FindSubmatch", "Find"} {
+		name := name
+		e.reg("(*regexp.Regexp)."+name, func(in *Interp, fr *frame, fn *ssa.Function, a []Val) Val {
+			panic(unsupported("regexp method " + name + " has no model"))
+		})
+	}
 	e.reg("(*regexp.Regexp).ReplaceAllString", func(in *Interp, fr *frame, fn *ssa.Function, a []Val) Val {
 		pat := patOf(in, a[0])
 		src, repl := a[1].(Str), a[2].(Str)
+		if src.B == nil && repl.B == nil {
+			if re, ok := conc(in, a[0]); ok {
+				return Str{S: re.ReplaceAllString(src.S, repl.S)}
+			}
+		}
 		if pat == `[^0-9]` && repl.Len() == 0 {
 			// documented meaning: delete every byte outside '0'..'9'
 			c := in.ctx
@@ -53,6 +108,11 @@ func registerRegexpModels(e *Engine) {
 		panic(unsupported("regexp ReplaceAllString for pattern " + pat))
 	})
 	e.reg("(*regexp.Regexp).MatchString", func(in *Interp, fr *frame, fn *ssa.Function, a []Val) Val {
+		if subj, _ := a[1].(Str); subj.B == nil {
+			if re, ok := conc(in, a[0]); ok {
+				return in.ctx.BoolC(re.MatchString(subj.S))
+			}
+		}
 		// contract-level: an arbitrary answer (havoc); harnesses that depend on it cannot be replayed natively
 		t := in.fresh("rematch", smt.Bool)
 		in.inputs = append(in.inputs, Input{Kind: "bool", T: t, Label: "regexp.MatchString(" + patOf(in, a[0]) + ")"})
@@ -228,6 +288,9 @@ func registerStringModels(e *Engine) {
 			return normStr(out)
 		}
 	}
+	ident := func(in *Interp, fr *frame, fn *ssa.Function, a []Val) Val { return a[0] }
+	e.reg("internal/stringslite.Clone", ident)
+	e.reg("strings.Clone", ident)
 	e.reg("strings.ToUpper", mk(true))
 	e.reg("strings.ToLower", mk(false))
 	e.reg("internal/bytealg.MakeNoZero", func(in *Interp, fr *frame, fn *ssa.Function, a []Val) Val {
@@ -389,5 +452,85 @@ func registerCookieModel(e *Engine) {
 			out = in.strConcat(out, Str{S: "; SameSite=None"})
 		}
 		return out
+	})
+}
+
+// json.Decoder on concrete input: NewDecoder(r) remembers r; Decode(&p) reads everything
+// r supplies (it must be concrete), parses it with Go's own encoding/json and stores the
+// result for the target shapes the repository uses: **struct{... string fields ...}.
+func registerJSONDecoderModel(e *Engine) {
+	e.reg("encoding/json.NewDecoder", func(in *Interp, fr *frame, fn *ssa.Function, a []Val) Val {
+		cell := new(Val)
+		*cell = in.zero(deref(fn.Signature.Results().At(0).Type()))
+		in.side[fmt.Sprintf("jdec%p", cell)] = a[0]
+		return cell
+	})
+	e.reg("(*encoding/json.Decoder).Decode", func(in *Interp, fr *frame, fn *ssa.Function, a []Val) Val {
+		q := nilCheck(in, a[0])
+		r, _ := in.side[fmt.Sprintf("jdec%p", q)].(Iface)
+		// read the whole input
+		var data []byte
+		for i := 0; i < 64; i++ {
+			buf := in.bytesOfStr(Str{S: strings.Repeat("\x00", 64)})
+			res := in.invokeMethod(fr, r, "Read", buf).(Tuple)
+			n := in.concInt(res[0])
+			arr := (*buf.Cell).(BArr).A
+			for k := int64(0); k < n; k++ {
+				t := in.ctx.Select(arr, in.ctx.Const(64, uint64(k)))
+				if !t.IsConst() {
+					panic(unsupported("json.Decoder.Decode on symbolic input"))
+				}
+				data = append(data, byte(t.Val))
+			}
+			if ev, _ := res[1].(Iface); ev.T != nil || n == 0 {
+				break
+			}
+		}
+		tgt, ok := a[1].(Iface)
+		pp, isPtr := tgt.V.(*Val)
+		if !ok || !isPtr || pp == nil {
+			panic(unsupported("json.Decoder.Decode target"))
+		}
+		var any interface{}
+		if err := json.Unmarshal(data, &any); err != nil {
+			return in.newError(fr, "json: "+err.Error())
+		}
+		pt, isPP := deref(tgt.T).Underlying().(*types.Pointer)
+		if !isPP {
+			panic(unsupported("json.Decoder.Decode target type " + tgt.T.String()))
+		}
+		st, isStruct := pt.Elem().Underlying().(*types.Struct)
+		if !isStruct {
+			panic(unsupported("json.Decoder.Decode target type " + tgt.T.String()))
+		}
+		switch v := any.(type) {
+		case nil:
+			*pp = (*Val)(nil)
+		case map[string]interface{}:
+			obj := new(Val)
+			sv := in.zero(pt.Elem()).(Struct)
+			for i := 0; i < st.NumFields(); i++ {
+				name := st.Field(i).Name()
+				if tag := reflect.StructTag(st.Tag(i)).Get("json"); tag != "" {
+					if n := strings.Split(tag, ",")[0]; n != "" {
+						name = n
+					}
+				}
+				for k, x := range v {
+					if strings.EqualFold(k, name) {
+						if s, isS := x.(string); isS && isString(st.Field(i).Type()) {
+							sv[i] = Str{S: s}
+						} else if x != nil {
+							return in.newError(fr, "json: cannot unmarshal into field "+name)
+						}
+					}
+				}
+			}
+			*obj = sv
+			*pp = obj
+		default:
+			return in.newError(fr, "json: cannot unmarshal value into struct")
+		}
+		return Iface{}
 	})
 }
